@@ -267,6 +267,18 @@ def k_mismatch(ctx, d, kind):
             props = uf.FixedFrameProperties(total, True, True, a, rest - a)
         else:
             props = uf.VarFrameProperties(True, True, total if d["ftype"] == "truncated" else 0, a, rest - a)
+    elif kind.startswith("declared_len_exceeds_buffer"):
+        # the managed truncated-frame length (or the frame length field) promises 1 .. a few octets more than were received
+        k = int(kind.rsplit("+", 1)[1])
+        if d["ftype"] == "truncated":
+            ft, props = props_for(d, total, truncated_frame_len=total + k)
+        elif d["ftype"] == "variable":
+            hl_ = 7 + d["vcf_len"]
+            want = want[:4] + (total - 1 + k).to_bytes(2, "big") + want[6:]
+            if total - 1 + k > 0xFFFF:
+                return
+        else:
+            return
     elif kind == "no_room_for_tfdf":
         big = total
         if d["ftype"] == "fixed":
@@ -403,7 +415,8 @@ def run(ctx):
             k_frame(ctx, d)
     for _ in range(ctx.n(300, 30_000)):
         d = rand_frame(r, tfdz_len=r.choice((1, 2, 17)))
-        for kind in ("wrong_fixed_len", "truncated_under_fixed", "rule_of_other_type", "wrong_props_class", "no_room_for_tfdf", "sizes_leave_zero"):
+        for kind in ("wrong_fixed_len", "truncated_under_fixed", "rule_of_other_type", "wrong_props_class", "no_room_for_tfdf", "sizes_leave_zero",
+                     "declared_len_exceeds_buffer+1", "declared_len_exceeds_buffer+2", "declared_len_exceeds_buffer+4", "declared_len_exceeds_buffer+5"):
             k_mismatch(ctx, d, kind)
 
 
